@@ -392,8 +392,26 @@ def canon_model(m):
 # ------------------------------------------------------------------------------
 # property monitors on the implementation's observations
 #
+def fits_one_node(script, r):
+    """independent of the code under test: a plain request (cores, lfs, mem only - no GPUs, no ranks-per-node figure,
+    no tags, no placement of the application's own) fits the idle pilot if ONE node has the free cores, the lfs and the
+    mem for all its ranks.  (Sufficient, not necessary: requests that need several nodes are judged by the real routine.)"""
+    if not script['cfg'].get('scattered', True): return False
+    if r['gpr'] or r['rpn'] or r['colo'] is not None or r['excl'] or r.get('app') is not None: return False
+    if r['ranks'] < 1 or r['cpr'] < 1: return False
+    for n in script['nodes']:
+        k = sum(1 for c in n['cores'] if c == 0) // r['cpr']
+        if r['lfs']: k = min(k, (n['lfs'] or 0) // r['lfs'])
+        if r['mem']: k = min(k, (n['mem'] or 0) // r['mem'])
+        if k >= r['ranks']: return True
+    return False
+
+
 def fits_idle(rp, script, r):
-    """oracle: does the REAL placement routine place `r` on the idle pilot?"""
+    """does `r` fit the idle pilot?  Yes if one node holds it by plain arithmetic (fits_one_node); otherwise the REAL
+    placement routine on the idle pilot is asked (GPU shares, several nodes, tags)"""
+    if fits_one_node(script, r):
+        return True
     s = make_sched(rp, script['cfg'], script['nodes'])
     try:
         slots, _ = s.schedule_task(req_to_task(r))
